@@ -68,29 +68,58 @@ def _stmt_of(fn: ast.FunctionDef, node: ast.AST) -> ast.stmt:
     raise AnalysisError("statement not at top level")
 
 
+def _nonempty_remainder_test(test: ast.AST, blk: str) -> tuple[str, str] | None:
+    """(cursor, edge label on which the remainder is non-empty) for the accepted spellings."""
+    import re
+    t = unparse(test)
+    for pat, lab in ((rf"{blk}\[(\w+):\]", "T"), (rf"(\w+) < len\({blk}\)", "T"), (rf"len\({blk}\) > (\w+)", "T"), (rf"len\({blk}\[(\w+):\]\) > 0", "T"),
+                     (rf"len\({blk}\) - (\w+) > 0", "T"), (rf"(\w+) >= len\({blk}\)", "F"), (rf"len\({blk}\) <= (\w+)", "F"), (rf"not {blk}\[(\w+):\]", "F"),
+                     (rf"(\w+) == len\({blk}\)", "F")):
+        m = re.fullmatch(pat, t)
+        if m:
+            return m.group(1), lab
+    return None
+
+
 def r2_tiling_loop(ctx: Ctx) -> None:
     fn = ctx.repo.func(W, "IPSWriter.write_block")
     blk, addr = fn.params()[1], fn.params()[2]
-    loops = [s for s in fn.node.body if isinstance(s, ast.While)]
+    g = CFG(fn.node)
+    loops = [s for s in walk_no_nested(fn.node) if isinstance(s, ast.While)]
     if len(loops) != 1:
-        raise AnalysisError("write_block: expected one while loop")
+        raise AnalysisError("write_block: expected one loop")
     lp = loops[0]
-    env = single_assignments(fn.node)
-    guard = unparse(lp.test)
+    hdr = [c for c in calls_in(fn.node) if call_name(c) == "self.write_block_header"]
+    dat = [c for c in calls_in(fn.node) if call_name(c) == "self.file.write"]
+    if len(hdr) != 1:
+        raise AnalysisError(f"write_block: expected one header call, found {len(hdr)}")
+    hn = g.node_containing(hdr[0])
+    # (1) a header is written only for a non-empty remainder
     kvar = None
-    for cand in ("k",) + tuple(n.id for n in ast.walk(lp.test) if isinstance(n, ast.Name)):
-        if guard in (f"{blk}[{cand}:]", f"{cand} < len({blk})", f"len({blk}) > {cand}", f"len({blk}[{cand}:]) > 0"):
-            kvar = cand
-    if kvar is None:
-        raise AnalysisError(f"write_block: loop guard `{guard}` not modelled")
-    ctx.ok("write_block:guard", f"`{guard}`: no record for an empty remainder (a zero-length record is a run-length record to readers)")
-    init = [s for s in fn.node.body if isinstance(s, ast.Assign) and unparse(s.targets[0]) == kvar]
+    guarded = False
+    tests_seen = []
+    for nid, node in g.nodes.items():
+        if node.kind != "test":
+            continue
+        r = _nonempty_remainder_test(node.ast, blk)  # type: ignore[arg-type]
+        if r is None:
+            continue
+        tests_seen.append(unparse(node.ast))
+        cur, lab = r
+        if g.dominated_by_edge(hn, (nid, lab)) or (g.dominated_by(hn, [nid]) and hn not in g.reachable([m for m, l in g.succ[nid] if l != lab], blocked=[nid])):
+            kvar = cur
+            guarded = True
+    if not guarded:
+        ctx.fail("write_block:guard", "a record header can be written when nothing remains of the block (an empty block, or the step after the last slice): "
+                 f"a zero-length record is a run-length record to every reader; remainder tests found: {tests_seen}")
+        return
+    ctx.ok("write_block:guard", "headers are written only while something remains (no zero-length record, nothing for an empty block)")
+    init = [s for s in walk_no_nested(fn.node) if isinstance(s, ast.Assign) and unparse(s.targets[0]) == kvar and s not in list(walk_no_nested(lp))]
     ctx.check(len(init) == 1 and unparse(init[0].value) == "0", "write_block:cursor-init", "the cursor starts at 0")
     body_env = {}
-    for s in lp.body:
+    for s in walk_no_nested(lp):
         if isinstance(s, ast.Assign) and isinstance(s.targets[0], ast.Name):
             body_env[s.targets[0].id] = s.value
-    # slice size
     size_var = None
     for name, val in body_env.items():
         if isinstance(val, ast.Call) and call_name(val) == "min" and len(val.args) == 2:
@@ -110,22 +139,23 @@ def r2_tiling_loop(ctx: Ctx) -> None:
         ctx.fail("write_block:slice", f"the data slice is not {blk}[{kvar}:{kvar} + {size_var}]")
         return
     ctx.ok("write_block:slice", f"{slice_var} = {blk}[{kvar}:{kvar}+{size_var}]")
-    hdr = [c for c in calls_in(lp) if call_name(c) == "self.write_block_header"]
-    dat = [c for c in calls_in(lp) if call_name(c) == "self.file.write"]
-    ctx.check(len(hdr) == 1 and [unparse(a) for a in hdr[0].args] == [slice_var, addr], "write_block:header-call", f"header is written for the slice at the running address; found {[unparse(h) for h in hdr]}")
+    ctx.check([unparse(a) for a in hdr[0].args] == [slice_var, addr], "write_block:header-call", f"header is written for the slice at the running address; found {unparse(hdr[0])}")
     ctx.check(len(dat) == 1 and [unparse(a) for a in dat[0].args] == [slice_var], "write_block:data-write", f"exactly the slice follows its header; found {[unparse(d) for d in dat]}")
-    stmts = lp.body
-    def idx(call: ast.Call) -> int:
-        return next(i for i, s in enumerate(stmts) if any(x is call for x in ast.walk(s)))
-    aug = {unparse(s.target): (i, s) for i, s in enumerate(stmts) if isinstance(s, ast.AugAssign)}
+    augs = {unparse(s.target): s for s in walk_no_nested(lp) if isinstance(s, ast.AugAssign)}
     for cur in (addr, kvar):
-        ok = cur in aug and isinstance(aug[cur][1].op, ast.Add) and unparse(aug[cur][1].value) == size_var
-        ctx.check(ok, f"write_block:advance:{cur}", f"advances by the slice size; found `{unparse(aug[cur][1]) if cur in aug else None}`")
-    if hdr and dat and addr in aug and kvar in aug and len(hdr) == 1 and len(dat) == 1:
-        ctx.check(idx(hdr[0]) < idx(dat[0]) < min(aug[addr][0], aug[kvar][0]) or (idx(hdr[0]) < idx(dat[0]) and idx(hdr[0]) < aug[addr][0]),
-                  "write_block:order", "header, data, then advance")
+        a = augs.get(cur)
+        ok = a is not None and isinstance(a.op, ast.Add) and unparse(a.value) == size_var
+        ctx.check(ok, f"write_block:advance:{cur}", f"advances by the slice size; found `{unparse(a) if a is not None else None}`")
+        if ok:
+            an = g.node_of(a)
+            # every way from one header to the next passes the advance
+            nxt = [m for m, _ in g.succ[hn]]
+            ctx.check(hn not in g.reachable(nxt, blocked=[an]), f"write_block:advance-every-record:{cur}", "between two records the cursor always advances")
+    if len(dat) == 1:
+        dn = g.node_containing(dat[0])
+        ctx.check(g.dominated_by(dn, [hn]) and hn not in g.reachable([m for m, _ in g.succ[hn]], blocked=[dn]), "write_block:order", "each header is followed by its data before the next header")
     for s in walk_no_nested(lp):
-        if isinstance(s, (ast.Break, ast.Continue, ast.Return)):
+        if isinstance(s, (ast.Continue, ast.Return)):
             ctx.fail(f"write_block:{type(s).__name__.lower()}", "an early exit leaves part of the block unwritten")
     ctx.count("tiling_facts", 8)
 
@@ -176,4 +206,11 @@ def r4_reserved_offset(ctx: Ctx) -> None:
     ctx.count("reserved_checks", len(checks))
 
 
-RULES = [r1_framing, r2_tiling_loop, r3_no_wrap_and_copier, r4_reserved_offset]
+
+def rb_binding_agreement(ctx: Ctx) -> None:
+    from ..ownership import binding_agreement
+
+    binding_agreement(ctx)
+
+
+RULES = [r1_framing, r2_tiling_loop, r3_no_wrap_and_copier, r4_reserved_offset, rb_binding_agreement]
